@@ -44,6 +44,11 @@ var c01Table = []c01Col{
 	{"FIXED_LEN_BYTE_ARRAY", 1, "PLAIN"}, {"FIXED_LEN_BYTE_ARRAY", 5, "PLAIN"}, {"FIXED_LEN_BYTE_ARRAY", 16, "PLAIN"},
 	{"FIXED_LEN_BYTE_ARRAY", 3, "DELTA_BYTE_ARRAY"}, {"FIXED_LEN_BYTE_ARRAY", 16, "DELTA_BYTE_ARRAY"},
 	{"FIXED_LEN_BYTE_ARRAY", 2, "BYTE_STREAM_SPLIT"}, {"FIXED_LEN_BYTE_ARRAY", 16, "BYTE_STREAM_SPLIT"},
+	// lengths on both sides of the 16- and 32-byte thresholds at which the decoders / encoders switch kernels
+	{"FIXED_LEN_BYTE_ARRAY", 15, "DELTA_BYTE_ARRAY"}, {"FIXED_LEN_BYTE_ARRAY", 17, "DELTA_BYTE_ARRAY"},
+	{"FIXED_LEN_BYTE_ARRAY", 32, "DELTA_BYTE_ARRAY"}, {"FIXED_LEN_BYTE_ARRAY", 33, "DELTA_BYTE_ARRAY"},
+	{"FIXED_LEN_BYTE_ARRAY", 17, "PLAIN"}, {"FIXED_LEN_BYTE_ARRAY", 32, "PLAIN"},
+	{"FIXED_LEN_BYTE_ARRAY", 17, "BYTE_STREAM_SPLIT"}, {"FIXED_LEN_BYTE_ARRAY", 32, "BYTE_STREAM_SPLIT"},
 }
 
 func (c c01Col) node() parquet.Node {
